@@ -129,13 +129,18 @@ def search(ctx, broken, seeds):
                             return fail("disable twice", d2)
                     except Exception as e:  # noqa: BLE001
                         return fail("raised", errname(e))
-                    embedded = dname == "unix_disabled" and orig in originals
+                    # what enable() must give back: the embedded hash (an already marker-led original
+                    # embeds what follows its marker); nothing for bare markers / None / django
+                    want = None
+                    if dname == "unix_disabled" and orig:
+                        want = orig[1:] if orig[0] in "!*" else orig
+                        want = want or None
                     try:
                         back = c.enable(d)
-                        if not embedded or back != orig:
+                        if want is None or back != want:
                             return fail("enable", back)
                     except ValueError:
-                        if embedded:
+                        if want is not None:
                             return fail("enable", "ValueError")
                 for orig in originals:
                     if c.enable(orig) != orig:
